@@ -694,8 +694,8 @@ fn make_groups(r: &mut Rng, w: &World, zi: usize, universe: &[N]) -> Vec<(RRset,
         } else if kind < 92 {
             // signature validity window relative to the wall clock (u32 order in the code)
             let (inc, exp) = match r.below(8) { 0 => (now - 7200, now - 3600), 1 => (now + 3600, now + 7200), 2 => (0, 0xFFFF_FFFF),
-                3 => (now - 100, now + 100), 4 => (now.wrapping_add(0x8000_0000), now + 100), 5 => (now - 100, 5),
-                6 => (now.wrapping_sub(0x7FFF_0000), now.wrapping_add(0x7FFF_0000)), _ => (now - 100, now.wrapping_add(0x8000_1000)) };
+                3 => (now - 900, now + 900), 4 => (now.wrapping_add(0x8000_0000), now + 900), 5 => (now - 900, 5),
+                6 => (now.wrapping_sub(0x7FFF_0000), now.wrapping_add(0x7FFF_0000)), _ => (now - 900, now.wrapping_add(0x8001_0000)) };
             let ok = rfc1982_valid(now, inc, exp);
             if !ok { v.secure = false; v.state = "Bogus"; }
             RRset { sigs: vec![sign_with(key, &key.zone, &[nrec.clone()], ol, inc, exp)], rrs: vec![nrec] }
@@ -1033,11 +1033,11 @@ fn main() {
         let vc = ValidationContext::new(w.anchors(), Mock::new(w.clone(), quiet.clone()));
         for i in 0..(40 * scale) {
             let now = now_u32();
-            let (inc, exp) = match i % 10 { 0 => (now - 300, now + 300), 1 => (now - 300, now.wrapping_add(0x8000_1000)), 2 => (0, 0xFFFF_FFFF), 3 => (now.wrapping_add(0x8000_1000), now + 300),
-                4 => (now - 7200, now - 600), 5 => (now + 600, now + 7200), 6 => (now.wrapping_sub(0x7FFF_0000), now.wrapping_add(0x7FFF_0000)), 7 => (now - 300, now.wrapping_add(0x7FFF_F000)),
+            let (inc, exp) = match i % 10 { 0 => (now - 900, now + 900), 1 => (now - 900, now.wrapping_add(0x8000_1000)), 2 => (0, 0xFFFF_FFFF), 3 => (now.wrapping_add(0x8000_1000), now + 900),
+                4 => (now - 7200, now - 900), 5 => (now + 900, now + 7200), 6 => (now.wrapping_sub(0x7FFF_0000), now.wrapping_add(0x7FFF_0000)), 7 => (now - 900, now.wrapping_add(0x7FFF_F000)),
                 8 => (now.wrapping_sub(r.below(0x7000_0000) as u32 + 100), now.wrapping_add(r.below(0x7000_0000) as u32 + 100)), _ => (r.u32(), r.u32()) };
             // keep the bounds away from the clock and from the undefined distance: the clock ticks between signing and checking
-            let near = |x: u32| { let d = x.wrapping_sub(now); d < 30 || d > 0xFFFF_FFE0 || (d > 0x7FFF_FFE0 && d < 0x8000_0020) };
+            let near = |x: u32| { let d = x.wrapping_sub(now); d < 600 || d > 0xFFFF_FDA8 || (d > 0x7FFF_FDA8 && d < 0x8000_0258) };
             if near(inc) || near(exp) { continue; }
             let owner = nm(&format!("t{}.zone.sec.", i));
             let rrs = vec![rec(&owner, 300, a([192, 0, 2, 40]))];
@@ -1296,6 +1296,127 @@ fn main() {
         }
     }
 
+    // ---------------- (3b') wildcard-expanded answers with generated NSEC proofs in the authority section
+    {
+        let w = world.clone();
+        let vc = ValidationContext::new(w.anchors(), Mock::new(w.clone(), quiet.clone()));
+        let zi = 1usize;
+        let z = &w.zones[zi];
+        let key = z.key.as_ref().unwrap();
+        let apex = z.apex.clone();
+        let mut uni = vec![apex.clone()];
+        for _ in 0..14 { uni.push(rel_name(&mut r, &apex, 3)); }
+        let zl = labels_of(&apex).len() as u8;
+        for _ in 0..(700 * scale) {
+            let sets = make_groups(&mut r, &w, zi, &uni);
+            let base = r.pick(&uni).clone();
+            let mut l = labels_of(&base);
+            match r.below(4) { 0 => {} 1 | 2 => l.insert(0, r.pick(LABS).to_vec()), _ => { l.insert(0, r.pick(LABS).to_vec()); l.insert(0, b"w".to_vec()); } }
+            let Some(target) = name_from_labels(&l) else { continue; };
+            let ol = l.len() as u8;
+            if ol <= zl || sets.iter().any(|s| rfc_eq(&s.1.owner, &target) && s.1.rtype == 1) { continue; }
+            // the answer: target A, RRSIG labels from the zone's label count up to the owner's (below = expanded from a wildcard)
+            let labels = if r.chance(1, 6) { nlabels(&target) } else { zl + r.below((ol - zl + 1) as u64) as u8 };
+            let data = vec![rec(&target, 300, a([192, 0, 2, 99]))];
+            let now = now_u32();
+            let bad_answer = r.chance(1, 15);
+            let sig = if bad_answer { let x = sign_with(key, &key.zone, &[rec(&target, 300, a([9, 9, 9, 9]))], labels, now - 900, now + 3600); x } else { sign_with(key, &key.zone, &data, labels, now - 900, now + 3600) };
+            let ce = if labels < ol { name_from_labels(&l[(ol - labels) as usize..]) } else { None };
+            let views: Vec<GView> = sets.iter().map(|s| s.1.clone()).collect();
+            let gw: String = views.iter().map(gwords).collect::<Vec<_>>().join(" ");
+            idx += 1; if !out.wants(idx) { continue; }
+            let c = format!("wild {} {} {} {} {}", nhex(&target), if bad_answer { "Bogus" } else { "Secure" }, nhex(&apex), ce.as_ref().map(|x| nhex(x)).unwrap_or("-".into()), gw);
+            out.begin(&c);
+            let resp = Resp { rcode: Rcode::NOERROR, answer: vec![RRset { rrs: data, sigs: vec![sig] }], authority: sets.iter().map(|s| s.0.clone()).collect() };
+            let mut m = build_msg(8, &target, Rtype::A, &resp);
+            match catch_mut(|| rt.block_on(async { vc.validate_msg(&mut m).await })) {
+                Err(p) => { out.case(&c, "Panic", true, "wildcard_answer"); out.check(false, "panic_validator", &c, &p); }
+                Ok(Err(e)) => out.case(&c, &format!("Error {}", e), true, "wildcard_answer"),
+                Ok(Ok((s, _))) => {
+                    out.case(&c, st(s), s == ValidationState::Secure && ce.is_some(), "wildcard_answer");
+                    // RFC 4035 5.3.4: an expanded wildcard is only acceptable with a proof that the name itself does not exist
+                    if s == ValidationState::Secure { if let Some(cev) = &ce {
+                        let is_star = star(cev).map_or(false, |x| rfc_eq(&x, &target));
+                        let covered = views.iter().any(|v| usable(v, &apex) && !rfc_eq(&target, &v.owner) && rfc_between(&target, &v.owner, &v.next));
+                        out.check(is_star || covered, "secure_wildcard_without_nonexistence_proof", &c, "expanded wildcard accepted without an NSEC covering the name");
+                    } }
+                }
+            }
+        }
+    }
+
+    // ---------------- (3e') the trust anchor step: configured anchors (DNSKEY / DS records) against served root DNSKEY RRsets
+    {
+        let w = world.clone();
+        let z = &w.zones[0];
+        let extra = [gen_key_flags(&z.apex, 256), gen_key_flags(&z.apex, 257)];
+        let collider = colliding_key(&z.apex, z.key.as_ref().unwrap().tag);
+        if collider.is_none() { out.count("harness_no_colliding_key"); }
+        let mut all: Vec<&ZKey> = vec![z.key.as_ref().unwrap(), &extra[0], &extra[1]];
+        if let Some(c) = collider.as_ref() { all.push(c); }
+        let nk = all.len();
+        let dk = |k: &ZKey| rec(&k.zone, 300, ZD::Dnskey(k.dnskey.clone()));
+        let dig = |k: &ZKey, dt: DigestAlgorithm| -> Vec<u8> { k.dnskey.digest(&k.zone, dt).unwrap().as_ref().to_vec() };
+        let hexu = |b: &[u8]| { let h = hex(b); if h == "-" { String::new() } else { h } };
+        let target = nm("ns.");
+        for _ in 0..(200 * scale) {
+            let mut set: Vec<usize> = (0..nk).filter(|_| r.chance(1, 2)).collect();
+            if set.is_empty() { set.push(r.below(nk as u64) as usize); }
+            for i in (1..set.len()).rev() { let j = r.below(i as u64 + 1) as usize; set.swap(i, j); }
+            let keyset: Vec<Rec> = set.iter().map(|i| dk(all[*i])).collect();
+            let mut taw: Vec<String> = vec![]; let mut talines: Vec<String> = vec![];
+            for _ in 0..(1 + r.below(3)) {
+                let ki = if r.chance(1, 2) { 0 } else { r.below(nk as u64) as usize }; let k = all[ki];
+                match r.below(10) {
+                    0 | 1 | 2 | 3 => { let pos = set.iter().position(|i| *i == ki); taw.push(format!("K {} - - -", pos.map(|p| p as i64).unwrap_or(99))); talines.push(format!(". 3600 IN DNSKEY {}", k.dnskey)); }
+                    9 => { taw.push("O - - - -".into()); talines.push(". 3600 IN A 192.0.2.250".into()); }
+                    x => {
+                        let dt = *r.pick(&[DigestAlgorithm::SHA256, DigestAlgorithm::SHA1, DigestAlgorithm::SHA384]);
+                        let (tag, dtn, d): (u16, u8, Vec<u8>) = match x { 4 => { let mut d = dig(k, dt); d[2] ^= 4; (k.tag, dt.to_int(), d) } 5 => (k.tag, 3, r.bytes(32)), 6 => (k.tag ^ 2, dt.to_int(), dig(k, dt)), _ => (k.tag, dt.to_int(), dig(k, dt)) };
+                        taw.push(format!("D 13 {} {} {}", tag, dtn, hex(&d))); talines.push(format!(". 3600 IN DS {} 13 {} {}", tag, dtn, hexu(&d)));
+                    }
+                }
+            }
+            let Ok(anchors) = TrustAnchors::from_u8(talines.join("\n").as_bytes()) else { out.count("anchor_text_rejected"); continue; };
+            let mut sgw: Vec<String> = vec![]; let mut sgrecs: Vec<Rec> = vec![];
+            for _ in 0..(1 + r.below(3)) {
+                let ki = r.below(nk as u64) as usize; let k = all[ki];
+                let good = r.chance(2, 3);
+                let sig = if good { sign(k, &keyset) } else {
+                    let bad = sign(k, &[dk(all[(ki + 1) % nk]), rec(&z.apex, 300, a([1, 2, 3, 4]))]);
+                    Record::new(z.apex.clone(), Class::IN, bad.ttl(), match bad.data() { ZD::Rrsig(g) => ZD::Rrsig(Rrsig::<Bytes, N>::new(Rtype::DNSKEY, g.algorithm(), g.labels(), g.original_ttl(), g.expiration(), g.inception(), g.key_tag(), g.signer_name().clone(), g.signature().clone()).unwrap()), d => d.clone() })
+                };
+                if sgrecs.iter().any(|x| x.data() == sig.data()) { continue; }
+                let valid: Vec<String> = if good { set.iter().enumerate().filter(|(_, i)| **i == ki).map(|(p, _)| p.to_string()).collect() } else { vec![] };
+                sgw.push(format!("{} {}", k.tag, if valid.is_empty() { "-".to_string() } else { valid.join(",") }));
+                sgrecs.push(sig);
+            }
+            let kw: Vec<String> = set.iter().map(|i| { let k = all[*i]; format!("13 {} {} {} {}", k.tag, hex(&dig(k, DigestAlgorithm::SHA1)), hex(&dig(k, DigestAlgorithm::SHA256)), hex(&dig(k, DigestAlgorithm::SHA384))) }).collect();
+            let m_key = build_msg(9, &z.apex, Rtype::DNSKEY, &Resp { rcode: Rcode::NOERROR, answer: vec![RRset { rrs: keyset.clone(), sigs: sgrecs.clone() }], authority: vec![] });
+            let sc = Script { attack: Attack::None, on_query: 0, pick: 0, raw: vec![(z.apex.clone(), Rtype::DNSKEY.to_int(), m_key)] };
+            let vc = ValidationContext::new(anchors, Mock::new(w.clone(), sc));
+            let data = vec![rec(&target, 300, a([192, 0, 2, 53]))];
+            let resp = Resp { rcode: Rcode::NOERROR, answer: vec![RRset { sigs: vec![sign(all[set[0]], &data)], rrs: data }], authority: vec![] };
+            idx += 1; if !out.wants(idx) { continue; }
+            let c = format!("anchor 1 {} {} {} {} {} {}", taw.len(), kw.len(), sgw.len(), taw.join(" "), kw.join(" "), sgw.join(" "));
+            out.begin(&c);
+            let mut m = build_msg(12, &target, Rtype::A, &resp);
+            match catch_mut(|| rt.block_on(async { vc.validate_msg(&mut m).await })) {
+                Err(p) => { out.case(&c, "Panic", true, "trust_anchor_step"); out.check(false, "panic_validator", &c, &p); }
+                Ok(Err(e)) => out.case(&c, &format!("Error {}", e), true, "trust_anchor_step"),
+                Ok(Ok((s, _))) => {
+                    out.case(&c, st(s), s == ValidationState::Secure, "trust_anchor_step");
+                    // secure needs an anchor record vouching for a key of the set that validly signed the set
+                    let vouched = set.iter().enumerate().any(|(p, i)| { let k = all[*i];
+                        let signed = sgw.iter().any(|sg| { let g: Vec<&str> = sg.split(' ').collect(); g[1].split(',').any(|x| x == p.to_string()) });
+                        signed && taw.iter().any(|t| { let f: Vec<&str> = t.split(' ').collect();
+                            (f[0] == "K" && f[1] == p.to_string()) || (f[0] == "D" && f[2] == k.tag.to_string() && f[3] != "3" && f[4] == hex(&dig(k, DigestAlgorithm::from_int(f[3].parse().unwrap())))) }) });
+                    out.check(!(s == ValidationState::Secure && !vouched), "secure_dnskey_not_signed_by_ds_key", &c, "secure without an anchored key having signed the DNSKEY RRset");
+                }
+            }
+        }
+    }
+
     // ---------------- (3f) the insecure-delegation decision: DS replies for kid.sec. with generated NSEC / NSEC3 proofs
     {
         let w = world.clone();
@@ -1528,7 +1649,7 @@ fn main() {
             if let Some(Ok((s, _))) = res { out.check(s != ValidationState::Secure, "secure_without_chain", c, st(s)); }
         }
         // (b) DNSKEY RRset with TTL 0, correctly signed
-        for ttl in [0u32, 1] {
+        for ttl in [0u32, 3600] {
             let z = &w.zones[2];
             let k = z.key.as_ref().unwrap();
             let (rrs, _) = z.get(&z.apex, Rtype::DNSKEY).unwrap();
@@ -1660,6 +1781,88 @@ fn main() {
             let c = format!("e2e replay genuine again {} {} round {}", g, gt, round);
             let s = verdict(&mut out, &vc, &c, &g, gt, &hon);
             out.check(s == Some(ValidationState::Secure), "honest_not_secure", &c, &format!("{:?}", s.map(st)));
+        }
+    }
+    // (5a') a signature that expires between two validations on ONE context: the second verdict must not rest on
+    // the first (the signature cache must not outlive the validity period).  Deterministic: the second validation
+    // starts only after the clock has passed the expiration; if the first one came too late the run is skipped and counted.
+    if !ar.extra.iter().any(|x| x == "--no-wait") {
+        let z = &w.zones[2];
+        let kz = z.key.as_ref().unwrap();
+        let vc = ValidationContext::new(w.anchors(), Mock::new(w.clone(), quiet.clone()));
+        // warm the chain so that the short-lived signature is the only thing validated late
+        let warm = nm("www.zone.sec.");
+        let _ = verdict(&mut out, &vc, "e2e expiry warm-up", &warm, Rtype::A, &Resp { rcode: Rcode::NOERROR, answer: vec![set_of(z.get(&warm, Rtype::A).unwrap())], authority: vec![] });
+        let owner = nm("shortlived.zone.sec.");
+        let rrs = vec![rec(&owner, 300, a([192, 0, 2, 66]))];
+        let t0 = now_u32();
+        let exp = t0 + 2;
+        let sig = sign_with(kz, &kz.zone, &rrs, 3, t0 - 600, exp);
+        let resp = Resp { rcode: Rcode::NOERROR, answer: vec![RRset { rrs, sigs: vec![sig] }], authority: vec![] };
+        idx += 1;
+        if out.wants(idx) {
+            let c = format!("e2e expiry shortlived.zone.sec. A, RRSIG expiring at {}: validated at {} and again after the expiration on the same context", exp, t0);
+            out.oracle_case(&c, true, "e2e_expiry");
+            let s1 = verdict(&mut out, &vc, &c, &owner, Rtype::A, &resp);
+            if now_u32() > exp || s1 != Some(ValidationState::Secure) { out.count("expiry_case_skipped_first_validation_late"); }
+            else {
+                while now_u32() <= exp + 1 { std::thread::sleep(std::time::Duration::from_millis(200)); out.begin(&c); }
+                out.begin(&c);
+                let t2 = now_u32();
+                let line = format!("reval {} {} {} {}", t0, t2, t0 - 600, exp);
+                let mut m = build_msg(11, &owner, Rtype::A, &resp);
+                match catch_mut(|| rt.block_on(async { vc.validate_msg(&mut m).await })) {
+                    Err(p) => { out.case(&line, "Panic", true, "revalidate"); out.check(false, if p.contains("subtract with overflow") { "ttl_for_sig_underflow_panic" } else { "panic_validator" }, &c, &p) }
+                    Ok(Err(_)) => {}
+                    Ok(Ok((s, _))) => {
+                        out.case(&line, if s == ValidationState::Secure { "true" } else { "false" }, true, "revalidate");
+                        out.check(s != ValidationState::Secure, "secure_with_expired_signature_cached", &c, "a signature validated before its expiration is still accepted after it (signature cache)")
+                    }
+                }
+            }
+        }
+    }
+    // (5a'') malformed replies: truncated, bit-flipped, with inflated section counts - for the user's reply and for the
+    // DS / DNSKEY lookups (request_as_groups).  No verdict is asserted beyond: no panic, no hang, never an error-free
+    // secure verdict for a reply whose answer section no longer parses.
+    {
+        let infra: Vec<(N, Rtype)> = vec![(nm("sec."), Rtype::DS), (nm("sec."), Rtype::DNSKEY), (nm("zone.sec."), Rtype::DS), (nm("zone.sec."), Rtype::DNSKEY), (nm("."), Rtype::DNSKEY), (nm("ins."), Rtype::DS), (nm("n3.sec."), Rtype::DNSKEY)];
+        let users: Vec<(N, Rtype)> = vec![(nm("www.zone.sec."), Rtype::A), (nm("nope.zone.sec."), Rtype::A), (nm("x.wild.zone.sec."), Rtype::A), (nm("www.ins."), Rtype::A), (nm("nope.n3.sec."), Rtype::A), (nm("alias2.zone.sec."), Rtype::A)];
+        let garble = |r: &mut Rng, m: &Message<Bytes>| -> Option<Message<Bytes>> {
+            let mut b = m.as_slice().to_vec();
+            match r.below(5) {
+                0 => { let k = 12 + r.below((b.len() - 12) as u64) as usize; b.truncate(k); }
+                1 => { for _ in 0..(1 + r.below(4)) { let k = 12 + r.below((b.len() - 12) as u64) as usize; b[k] ^= 1 << r.below(8); } }
+                2 => { let f = 4 + 2 * r.below(4) as usize; b[f] = r.u8(); b[f + 1] = r.u8(); }
+                3 => { let k = 12 + r.below((b.len() - 12) as u64) as usize; b[k] = 0xC0; if k + 1 < b.len() { b[k + 1] = r.u8(); } }
+                _ => { let k = 12 + r.below((b.len() - 12) as u64) as usize; let n = r.below(40) as usize; let extra = r.bytes(n); b.splice(k..k, extra); }
+            }
+            Message::from_octets(Bytes::from(b)).ok()
+        };
+        for _ in 0..(400 * scale) {
+            let (qn, qt) = r.pick(&users).clone();
+            let on_infra = r.chance(2, 3);
+            idx += 1; if !out.wants(idx) { continue; }
+            let (hq, ht) = if on_infra { r.pick(&infra).clone() } else { (qn.clone(), qt) };
+            let (hr, _) = honest(&w, &hq, ht, 0);
+            let Some(bad) = garble(&mut r, &build_msg(7, &hq, ht, &hr)) else { continue; };
+            let c = format!("e2e garbled {} {} with the {} {} reply replaced by {}", qn, qt, hq, ht, hex(bad.as_slice()));
+            out.oracle_case(&c, true, "e2e_garbled");
+            out.begin(&c);
+            let sc = Script { attack: Attack::None, on_query: 0, pick: 0, raw: if on_infra { vec![(hq.clone(), ht.to_int(), bad.clone())] } else { vec![] } };
+            let mock = Mock::new(w.clone(), sc);
+            let vc = ValidationContext::new(w.anchors(), mock.clone());
+            let mut m = if on_infra { mock.answer(7, &qn, qt) } else { bad.clone() };
+            let parses = |m: &Message<Bytes>| m.answer().map(|a| a.into_iter().all(|x| x.is_ok())).unwrap_or(false) && m.authority().map(|a| a.into_iter().all(|x| x.is_ok())).unwrap_or(false);
+            let user_ok = parses(&m);
+            match catch_mut(|| rt.block_on(async { vc.validate_msg(&mut m).await })) {
+                Err(p) => out.check(false, "panic_validator", &c, &p),
+                Ok(Err(_)) => out.check(true, "panic_validator", &c, ""),
+                Ok(Ok((s, _))) => {
+                    out.check(true, "panic_validator", &c, "");
+                    out.check(!(s == ValidationState::Secure && !user_ok), "secure_without_chain", &c, "secure verdict for a reply whose records do not parse");
+                }
+            }
         }
     }
     // (5b) NSEC3 name error with an incomplete closest-encloser proof
